@@ -50,10 +50,10 @@ TOL = 1e-9
 # --------------------------------------------------------------------------------------------
 # case generation
 # --------------------------------------------------------------------------------------------
-def make_case(seed):
+def make_case(seed, n_leaves=None, n_genes=None):
     rng = random.Random(seed)
-    n_leaves = rng.choice([2, 3, 3, 3, 4, 4, 3, 4, 3, 4])
-    n_genes = rng.choice([1, 2, 3, 4, 5, 6, 6, 5])
+    n_leaves = n_leaves or rng.choice([2, 3, 3, 3, 4, 4, 3, 4, 3, 4])
+    n_genes = n_genes or rng.choice([1, 2, 3, 4, 5, 6, 6, 5])
     leaves = [f'c{i}' for i in range(n_leaves)]
     rng.shuffle(leaves)
     # two-level tree (the marker finder only looks at leaves)
@@ -109,6 +109,16 @@ def make_case(seed):
 
 def make_special(kind):
     """deterministic cases: `s4` (former witness of S-4, now an ordinary case) and `s7` (open finding S-7)"""
+    if kind == 'wide':
+        # more than 255 genes: gene indices leave the narrowest integer type of the marker files
+        c = make_case(770077, n_leaves=3, n_genes=270)
+        c['seed'] = 'wide'
+        return c
+    if kind == 'many':
+        # 24 leaves = 276 pairs: pair indices leave the narrowest integer type
+        c = make_case(770078, n_leaves=24, n_genes=4)
+        c['seed'] = 'many'
+        return c
     if kind == 's7':
         cells = {'c0': np.array([[1.0, 2.0], [1.5, 2.5]])}
         return dict(seed='s7', leaves=['c0'], classes={'A': ['c0']}, cells=cells, genes=['g0', 'g1'],
@@ -509,9 +519,10 @@ def run(tier='quick', seed=0, jobs=1):
     n = 60 if tier == 'quick' else 600
     row = new_row(FN, 'seeded-random end-to-end (real marker finder vs independent scipy/numpy recomputation)',
                   '<= 4 leaves, <= 6 genes, cluster sizes 1..8, zero-variance genes, ties, gene list, '
-                  '1/2/3 workers, 2 memory budgets; one case with a threshold 1e-6 above its floor',
+                  '1/2/3 workers, 2 memory budgets; one case with a threshold 1e-6 above its floor; one case with 270 genes, '
+                  'one with 24 leaves (276 pairs)',
                   CLAUSES)
-    seeds = ['s4', 's7'] + [seed * 100003 + i for i in range(n)]
+    seeds = ['s4', 's7', 'wide', 'many'] + [seed * 100003 + i for i in range(n)]
     for (st, res), s in zip(parallel_map(one_case, seeds, jobs=min(jobs, 4)), seeds):
         row['cases'] += 1
         if st != 'ok':
